@@ -7,12 +7,15 @@ pub mod writer;
 use super::{TryFromNode, field::RustFieldType};
 use crate::{
     error::{WriterError, WriterResult},
-    model::{Namespace, doc::RustDocument, field::Field},
+    model::{
+        Namespace,
+        doc::RustDocument,
+        field::{Field, as_type_name},
+    },
     reader::WriteXml,
 };
 use complex::ComplexProps;
 use element::{ElementProps, ElementType};
-use inflector::cases::pascalcase::to_pascal_case;
 use roxmltree::Node;
 use simple::SimpleProps;
 use std::{io, rc::Rc};
@@ -59,5 +62,5 @@ fn parse_comment<'n>(node: Node<'n, 'n>) -> Option<String> {
 }
 
 pub fn xml_name_to_rust_name(xml_name: &str) -> String {
-    to_pascal_case(xml_name)
+    as_type_name(xml_name)
 }
